@@ -556,6 +556,8 @@ def run_harness(ctx, specs):
         if not got:
             break
         last = got[-1]
+        if sum(1 for c in cases if c.get("hang")) >= 6:
+            break    # the check has failed many times over; every further hang costs the watchdog's 5 s
         if last.get("hang") or not last.get("complete"):
             first = last["index"] + 1
         else:
@@ -575,7 +577,7 @@ def check(ctx):
                             "kernel's pipe semantics (EOF when the last writer closes, EPIPE/SIGPIPE when the last reader closes) "
                             "are outside the model and exercised by the real runs",
                             "trace-mode interposer with real exec: parent's pipe/fcntl/fork/close/waitpid log, each child's "
-                            "descriptor snapshot at exec; watchdog (8 s) for hangs"]
+                            "descriptor snapshot at exec; watchdog (5 s) for hangs"]
     ctx.assumptions += ["commands of a pipeline have no stream settings of their own (the pipeline start refuses those loudly)",
                         "scripted children are responsive: they end at end-of-file on stdin or when their output pipe breaks"]
     if not ctx.cargo_build():
@@ -586,7 +588,9 @@ def check(ctx):
         specs = GEN[prop](ctx)
     cases, stderr = run_harness(ctx, specs)
     done = [c for c in cases if c.get("complete") or c.get("hang")]
-    if len(done) != len(specs):
+    stopped_early = sum(1 for c in done if c.get("hang")) >= 6
+    cov["stopped_after_6_hangs"] = stopped_early
+    if len(done) != len(specs) and not stopped_early:
         ctx.broken_correspondence({"what": f"harness ran {len(done)} of {len(specs)} cases", "stderr": stderr.decode(errors='replace')[-1500:]})
     cases = done
     for c in cases:
